@@ -15,6 +15,9 @@ class ToolError(Exception):
     pass
 
 def load_def(name):
+    if name.startswith("randx") and name[5:].isdigit():
+        import randdef
+        return gen.Def(randdef.make(int(name[5:]), ext=True))
     if name.startswith("rand") and name[4:].isdigit():      # definitions drawn at random from the seed in the name (gen/randdef.py)
         import randdef
         return gen.Def(randdef.make(int(name[4:])))
